@@ -1747,6 +1747,22 @@ func (g *fgen) ret(x *ssa.Return, st *state) {
 	for i, r := range x.Results {
 		env.vars[fc.results[i].name] = g.get(r)
 	}
+	// ghost code by decree: havoc the ghost variables the contract writes, then assume
+	// their defining clauses
+	if len(fc.ghostWrites) > 0 {
+		for _, name := range fc.ghostWrites {
+			if k, gv := g.ghostKey(name); gv != nil {
+				g.havocKey(st, k)
+			}
+		}
+		for _, c := range fc.defines {
+			t, err := env.safeBool(c)
+			if err != nil {
+				panic(transErr(err.Error()))
+			}
+			g.fact(g.curGuard, t)
+		}
+	}
 	g.assertGinvs(st, "ginv-ret", g.w.srcText(x.Pos(), 0), x.Pos())
 	g.frameObligations(st, x.Pos(), g.w.srcText(x.Pos(), 0))
 	for _, c := range fc.ensures {
